@@ -107,8 +107,8 @@ class HostnameField(StringField):
     """
 
     storage_type = str
-    HOSTNAME_REGEX = re.compile(r"^[a-zA-Z0-9][a-zA-Z0-9.\-]+$")
-    NETBIOS_REGEX = re.compile(r"^[\w!@#$%^()\-'{}\.~]{1,15}$")
+    HOSTNAME_REGEX = re.compile(r"^[a-zA-Z0-9][a-zA-Z0-9.\-]+\Z")
+    NETBIOS_REGEX = re.compile(r"^[\w!@#$%^()\-'{}\.~]{1,15}\Z")
 
     def __init__(self, *, allow_ipv4: bool = True, resolve: bool = False, **kwargs):
         """
